@@ -437,7 +437,7 @@ def c01_corr(res, exe, driver, tier, seed, tmp):
 def verdict_script(text):
     """the scripted validator of the harness child (harness/src/ttychild.rs), restated"""
     s = "".join(chr(c) for c in text)
-    if "##" in s:
+    if "##" in s or "#@" in s:
         return ("error", None)
     if "!!" in s:
         return ("invalid", " <-- bad")
@@ -481,7 +481,7 @@ def verdict_brackets(text):
     return ("valid", None) if not stack else ("incomplete", None)
 
 
-C13_FRAG = ["a", "b", " ", "!!", "??", "##", "\\", "ok", "(", ")", "[", "]", "{", "}", "é", "日", "x", "!", "?", "#", "~~", "~"]
+C13_FRAG = ["a", "b", " ", "!!", "??", "##", "#@", "\\", "ok", "(", ")", "[", "]", "{", "}", "é", "日", "x", "!", "?", "#", "~~", "~"]
 
 
 def gen_c13(rng, mode):
